@@ -41,6 +41,8 @@ def apply_gate(qc, g):
         qc.cp(g["m"] * 2 * math.pi / 16, w[0], w[1])
     elif cls == "Barrier":
         qc.barrier()
+    elif cls == "I":
+        qc.append(G.I(), [w[0]])
     else:
         raise ValueError(cls)
 
